@@ -196,3 +196,147 @@ Fixpoint value_eqb (a b : value) : bool :=
       all2 (fun x y => String.eqb (fname x) (fname y) && fkind_eqb (fknd x) (fknd y) && value_eqb (fval x) (fval y)) f1 f2
   | _, _ => false
   end.
+
+(* ====================================================================== *)
+(* simple_parsing.replace.replace_subgroups                                *)
+(* ====================================================================== *)
+(* what a selection can be *)
+Inductive sel :=
+| SKey (k : string)                     (* a str: the key of a subgroup *)
+| SType (cls : string)                  (* a dataclass type *)
+| SInst (v : value)                     (* a dataclass instance *)
+| SNone
+| SOther                                (* anything else (an int, a non-dataclass type, ...) *)
+| SDict (items : list (string * sel)).  (* a dict: nested selections, the member itself under the keyword *)
+Definition sdict := list (string * sel).
+
+Fixpoint sget (d : sdict) (k : string) : option sel :=
+  match d with [] => None | (k', v) :: r => if String.eqb k k' then Some v else sget r k end.
+Fixpoint sset (d : sdict) (k : string) (v : sel) : sdict :=
+  match d with
+  | [] => [(k, v)]
+  | (k', v') :: r => if String.eqb k k' then (k', v) :: r else (k', v') :: sset r k v
+  end.
+Definition sremove (d : sdict) (k : string) : sdict := filter (fun kv => negb (String.eqb (fst kv) k)) d.
+
+(* Static facts about a field that the function reads through helpers modelled elsewhere; they are OBSERVED on the
+   implementation for every generated class and handed to the model as tables. *)
+Record fmeta := mkfmeta {
+  m_has_dc : bool;                       (* contains_dataclass_type_arg(annotation) *)
+  m_optional : bool;                     (* is_optional(annotation) *)
+  m_subgroups : list (string * value);   (* field.metadata["subgroups"]: key -> the member it yields (instance / cls() / partial()) *)
+  m_factory : option value               (* field.default_factory() when there is one *)
+}.
+Record tables := mktables {
+  t_meta : list (string * string * fmeta);   (* (class, field) -> facts *)
+  t_classes : list (string * value)          (* class -> cls() *)
+}.
+Fixpoint meta_of (l : list (string * string * fmeta)) (cls name : string) : option fmeta :=
+  match l with
+  | [] => None
+  | (c, n, m) :: r => if String.eqb c cls && String.eqb n name then Some m else meta_of r cls name
+  end.
+
+Record sfacts := mksfacts {
+  s_keyword : string;          (* the key under which a nested selection dict names the member itself *)
+  s_sep : ascii;               (* default sep of _unflatten_selection_dict *)
+  s_noninit_first : bool;      (* is `not field.init` tested BEFORE `field.name not in selections` *)
+  s_noninit_err : string;
+  s_nodc_err : string;         (* annotation contains no dataclass *)
+  s_invalid_err : string       (* the final else of the resolution chain *)
+}.
+
+Section Subgroups.
+  Variable S : sfacts.
+  Variable T : tables.
+
+  (* _unflatten_selection_dict(selections, keyword, recursive=False) *)
+  Definition sel_tops (d : sdict) : list string :=
+    flat_map (fun kv => match split_on (s_sep S) (fst kv) "" with t :: _ :: _ => [t] | _ => [] end) d.
+  Definition unflatten_selection (d : sdict) : sdict :=
+    let ts := sel_tops d in
+    fold_left (fun dc kv =>
+                 match split_on (s_sep S) (fst kv) "" with
+                 | top :: rest =>
+                     if str_in top ts then
+                       let sub := match sget dc top with Some (SDict s) => s | _ => [] end in
+                       sset dc top (SDict (match rest with
+                                           | [] => sset sub (s_keyword S) (snd kv)
+                                           | _ => sset sub (join_dot rest) (snd kv)      (* ".".join(rest_keys) *)
+                                           end))
+                     else sset dc (fst kv) (snd kv)
+                 | [] => dc
+                 end) d [].
+
+  Definition is_snone (s : sel) : bool := match s with SNone => true | _ => false end.
+
+  (* the if/elif chain that turns value_of_selection into the new member *)
+  Definition resolve (m : fmeta) (vos : sel) : res value :=
+    match vos with
+    | SType c => match dget (t_classes T) c with Some v => Ok v | None => Err (Raise "TypeError") end
+    | SInst v => Ok v                                                   (* copy.deepcopy *)
+    | _ =>
+        match m_subgroups m with
+        | _ :: _ =>
+            match vos with
+            | SKey k => match dget (m_subgroups m) k with Some v => Ok v | None => Err (Raise "KeyError") end
+            | _ => Err (Raise "AssertionError")                          (* assert isinstance(value_of_selection, str) *)
+            end
+        | [] =>
+            if m_optional m && is_snone vos then Ok (VLeaf "NoneType" "None")
+            else if m_has_dc m && is_snone vos then
+              match m_factory m with Some v => Ok v | None => Err (Raise "TypeError") end
+            else Err (Raise (s_invalid_err S))
+        end
+    end.
+
+  Section SLoop.
+    Variable rec : value -> option sdict -> res value.
+    Variable cls : string.
+    Variable sels : sdict.
+    Fixpoint sloop (l : list field) : res dict :=
+      match l with
+      | [] => Ok []
+      | f :: r =>
+          if s_noninit_first S && is_noninit (fknd f) then Err (Raise (s_noninit_err S))
+          else match sget sels (fname f) with
+               | None => sloop r
+               | Some selection =>
+                   if is_noninit (fknd f) then Err (Raise (s_noninit_err S))
+                   else match meta_of (t_meta T) cls (fname f) with
+                        | None => Err (Raise "ModelMissingMeta")
+                        | Some m =>
+                            if negb (m_has_dc m) then Err (Raise (s_nodc_err S))
+                            else
+                              let vc := match selection with
+                                        | SDict items =>
+                                            (match sget items (s_keyword S) with Some v => v | None => SNone end,
+                                             Some (sremove items (s_keyword S)))
+                                        | s => (s, None)
+                                        end in
+                              bind (resolve m (fst vc)) (fun field_value =>
+                                bind (match snd vc with
+                                      | Some (x :: c) => rec field_value (Some (x :: c))
+                                      | _ => Ok field_value
+                                      end) (fun nv =>
+                                  bind (sloop r) (fun kw => Ok ((fname f, nv) :: kw))))
+                        end
+               end
+      end.
+  End SLoop.
+
+  (* selections that are no field of obj are silently dropped: only replace_kwargs reaches dataclasses.replace *)
+  Fixpoint rsub (fuel : nat) (o : value) (selections : option sdict) : res value :=
+    match fuel with
+    | 0 => Err OutOfFuel
+    | Datatypes.S fuel' =>
+        match selections with
+        | None | Some [] => Ok o                                       (* if not selections: return obj *)
+        | Some d =>
+            match o with
+            | VDc cls fs => bind (sloop (rsub fuel') cls (unflatten_selection d) fs) (dc_replace o)
+            | _ => Err (Raise "TypeError")
+            end
+        end
+    end.
+End Subgroups.
